@@ -103,6 +103,11 @@ func (d *Decoder) decodeSlice(pkt *rtp.Packet) ([]byte, error) {
 	switch {
 	case b == 1 && e == 1:
 		d.resetFragments()
+
+		if len(pkt.Payload) == 4 {
+			return nil, fmt.Errorf("payload is too short")
+		}
+
 		return pkt.Payload[4:], nil
 
 	case b == 1:
@@ -120,6 +125,11 @@ func (d *Decoder) decodeSlice(pkt *rtp.Packet) ([]byte, error) {
 		if pkt.SequenceNumber != d.fragmentNextSeqNum {
 			d.resetFragments()
 			return nil, fmt.Errorf("discarding frame since a RTP packet is missing")
+		}
+
+		if len(pkt.Payload) == 4 {
+			d.resetFragments()
+			return nil, fmt.Errorf("payload is too short")
 		}
 
 		d.fragmentsSize += len(pkt.Payload[4:])
@@ -147,6 +157,11 @@ func (d *Decoder) decodeSlice(pkt *rtp.Packet) ([]byte, error) {
 		if pkt.SequenceNumber != d.fragmentNextSeqNum {
 			d.resetFragments()
 			return nil, fmt.Errorf("discarding frame since a RTP packet is missing")
+		}
+
+		if len(pkt.Payload) == 4 {
+			d.resetFragments()
+			return nil, fmt.Errorf("payload is too short")
 		}
 
 		d.fragmentsSize += len(pkt.Payload[4:])
